@@ -62,9 +62,18 @@ func (rn *runner) pobs(ctx *types.Context, key string) {
 }
 
 func (rn *runner) runParamsCase(c *Case) {
-	rn.emit(obj("ev", js("xreset"), "fam", js("params"), "id", js(c.ID)))
+	rn.runParamsOnce(c, false)
+	rn.runParamsOnce(c, true)
+}
+
+// fresh: start from a brand-new zero-value Context (its parameter map not yet allocated) instead of a pooled one
+func (rn *runner) runParamsOnce(c *Case, fresh bool) {
+	rn.emit(obj("ev", js("xreset"), "fam", js("params"), "id", js(c.ID), "fresh", jbool(fresh)))
 	rn.stats.cases++
 	ctx := types.NewContext()
+	if fresh {
+		ctx = new(types.Context)
+	}
 	for _, k := range c.Keys {
 		rn.pobs(ctx, k)
 	}
